@@ -85,7 +85,7 @@ fn parse_undefined() -> Result<Amf0Value, Amf0DeserializationError> {
 fn parse_bool<R: Read>(bytes: &mut R) -> Result<Amf0Value, Amf0DeserializationError> {
     let value = bytes.read_u8()?;
 
-    if value == 1 {
+    if value != 0 {
         Ok(Amf0Value::Boolean(true))
     } else {
         Ok(Amf0Value::Boolean(false))
